@@ -47,7 +47,7 @@ class C13(vlib.Check):
                'Not covered: renderings longer than INT_MAX; that libc\'s default-precision renderings stay below 318 bytes is checked on '
                '+-DBL_MAX for every letter, not proved.')
     rule = ('directed doubles {+-0, min/max subnormal, DBL_MIN, +-DBL_MAX, +-inf, quiet/signalling/payload NaN of both signs, every power of ten '
-            '1e-320..1e308 (quick: every 4th plus those whose %f rendering has 62/63/64/65 bytes), assorted} and seeded bit patterns, floats widened; '
+            '1e-320..1e308 (quick: every 2nd plus those whose %f rendering has 62/63/64/65 bytes), assorted} and seeded bit patterns, floats widened; '
             'x notation {g,f,e,E} x precision {none,0,1,6,17,40,60,100} (+ 2147483647 with %g of exactly representable values, 300, 1000 sampled) x sign '
             'flag x width {0,1,len-1,len,len+1,63,64,65,200} x alignment {default,left,right} x pad {default,*,0} through ST::format_type with a '
             'format_spec (all fields) and through ST::format with the equivalent format string; from_double/from_float/string_stream with every '
@@ -64,13 +64,13 @@ class C13(vlib.Check):
 
     def doubles(self, rng, tier):
         d = list(DIRECTED)
-        step = 1 if tier == 'thorough' else 4
+        step = 1 if tier == 'thorough' else 2
         for k in list(range(-320, 309, step)) + [53, 54, 55, 56, 57, 58, -5, -4, -1, 0, 1, 15, 16, 17, 21, 22, 23, 308, -308, -307, -320]:
             b = pow10(k)
             d.append(b)
             if k % 3 == 0:
                 d.append(b | (1 << 63))
-        n = 150 if tier == 'quick' else 3000
+        n = 400 if tier == 'quick' else 3000
         for _ in range(n):
             r = rng.random()
             if r < 0.5:
